@@ -44,7 +44,13 @@ def run(ctx):
             if rej is None:
                 from vlib.common import Broken
                 raise Broken("trace validation is vacuous: a trace with a corrupted receive event was accepted")
+    # the receive queue's wait / poll protocol: every interleaving of arm, poll, wake with the peer's frames, on a real channel
+    from vlib import wakefam
+    wr, wsum = wakefam.run(ctx, "mpx", check_vacuity=True)
+    states += wr.distinct
+    trans += wr.generated
     ctx.coverage = {
+        "wake_schedules_replayed": wsum["schedules"],
         "states": states, "transitions": trans, "traces_validated_against_impl": runs, "samples": samples,
         "events": events, "configs": cfgs, "invariants": ["PrefixOrder", "DrainBeforeEnd"],
         "explanation": "each run: real server + real client (1-2 connections) over loopback, 1-6 channels, both directions at once, "
